@@ -118,6 +118,20 @@ Theorem C15_rejection_unbiased_u64 : forall m,
     (forall r x, 0 <= r < m ->
        (0 <= x <= B /\ x mod m = r) <-> (exists k, 0 <= k < q /\ x = k * m + r)).
 Proof. exact u64_rejection_unbiased. Qed.
+(* the same as a count: among the accepted draws 0..B every residue has the same, non-zero,
+   number of preimages ([preimages m r B] = number of x in 0..B with x mod m = r) *)
+Theorem C15_preimages_count : forall m q r,
+  0 < m -> 0 <= q -> 0 <= r < m -> preimages m r (q * m - 1) = Z.to_nat q.
+Proof. exact preimages_count. Qed.
+Theorem C15_rejection_equal_preimages_u32 : forall m r r',
+  0 < m -> 0 <= r < m -> 0 <= r' < m ->
+  preimages m r (u32_bound m) = preimages m r' (u32_bound m) /\ (0 < preimages m r (u32_bound m))%nat.
+Proof. exact u32_preimages_equal. Qed.
+Theorem C15_rejection_equal_preimages_u64 : forall m r r',
+  0 < m < 2 ^ 64 -> 0 <= r < m -> 0 <= r' < m ->
+  preimages m r (in_range_bound m) = preimages m r' (in_range_bound m) /\
+  (0 < preimages m r (in_range_bound m))%nat.
+Proof. exact u64_preimages_equal. Qed.
 Theorem C15_class_members_distinct : forall m r k k', 0 < m -> k * m + r = k' * m + r -> k = k'.
 Proof. exact class_members_distinct. Qed.
 Theorem C15_u32_draw_accepted : forall (St : Type) (number : St -> nat -> result (Z * St)) fuel need bound m s v s',
@@ -181,6 +195,8 @@ Qed.
 (* modulus 3 in generate_u32_in_range: 2 bytes, 65535 accepted draws = 21845 periods *)
 Example C15_example_rejection : u32_need_bytes 3 = 2 /\ u32_bound 3 + 1 = 21845 * 3.
 Proof. split; reflexivity. Qed.
+Example C15_example_preimages : preimages 3 0 8 = 3%nat /\ preimages 3 2 8 = 3%nat /\ preimages 3 2 7 = 2%nat.
+Proof. repeat split; reflexivity. Qed.
 Example C15_example_rejection_u64 : in_range_bound (2 ^ 63 + 1) + 1 = 2 ^ 63 + 1.
 Proof. reflexivity. Qed.
 Example C15_example_blocks : ctr 1 0 <> ctr 0 (2 ^ 64 - 1) /\ ctr 1 0 = ctr 0 (2 ^ 64).
@@ -207,6 +223,9 @@ Print Assumptions C15_perm_total.
 Print Assumptions C15_shuffle_is_perm.
 Print Assumptions C15_rejection_unbiased_u32.
 Print Assumptions C15_rejection_unbiased_u64.
+Print Assumptions C15_preimages_count.
+Print Assumptions C15_rejection_equal_preimages_u32.
+Print Assumptions C15_rejection_equal_preimages_u64.
 Print Assumptions C15_class_members_distinct.
 Print Assumptions C15_u32_draw_accepted.
 Print Assumptions C15_u32_draw_in_range.
